@@ -4,8 +4,10 @@ import itertools
 from ..core import Suite
 
 PROPERTY = "C24"
-LEAN_MODULES = ["DAVerif.Props.C24"]
+LEAN_MODULES = ["DAVerif.Props.C24", "DAVerif.Props.C24cmp"]
 THEOREMS = [
+    # containment queries read the argument as a set: repeats in a raw list never change <= / >=
+    "DAVerif.OSet.C24_ge_spec", "DAVerif.OSet.C24_le_spec", "DAVerif.OSet.C24_ge_ofList", "DAVerif.OSet.C24_le_ofList",
     "DAVerif.OSet.C24_step_refines",
     "DAVerif.OSet.C24_run_nodup",
     "DAVerif.OSet.C24_first_insertion_order",
